@@ -100,17 +100,23 @@ class Platform:
         System includes do not include the rootdir, while local includes
         do.
         """
+        # The result of a search depends on the form of the include and, for
+        # the quote form, on the directory of the including file.
+        key = (filename, bool(is_system_include))
+        if not is_system_include:
+            key += (this_path,)
+
         try:
-            if verif.ENABLED and filename in self.found_incl:
+            if verif.ENABLED and key in self.found_incl:
                 verif.emit(
                     "Resolve",
                     spelling=filename,
                     system=bool(is_system_include),
                     fromdir=this_path,
-                    result=self.found_incl[filename],
+                    result=self.found_incl[key],
                     memo_hit=True,
                 )
-            return self.found_incl[filename]
+            return self.found_incl[key]
         except KeyError:
             pass
 
@@ -125,7 +131,7 @@ class Platform:
             test_path = os.path.abspath(os.path.join(path, filename))
             if os.path.isfile(test_path):
                 include_file = test_path
-                self.found_incl[filename] = include_file
+                self.found_incl[key] = include_file
                 if verif.ENABLED:
                     verif.emit(
                         "Resolve",
@@ -138,7 +144,7 @@ class Platform:
                 return include_file
 
         if include_file is None:
-            self.found_incl[filename] = None
+            self.found_incl[key] = None
             if verif.ENABLED:
                 verif.emit(
                     "Resolve",
